@@ -2,15 +2,8 @@
 #![allow(clippy::type_complexity)]
 #![allow(dead_code)]
 
-mod container;
-mod dirgen;
-mod engine;
-mod gen;
-mod indep;
-mod indepcheck;
-mod props;
-
-use engine::*;
+use jbkv::engine::*;
+use jbkv::props;
 use std::path::Path;
 
 macro_rules! dispatch {
@@ -50,7 +43,10 @@ fn main() {
                 usage();
             }
             let tier = Tier::parse(&args[3]).unwrap_or_else(|| usage());
-            dispatch!(args[2].as_str(), run_check, tier)
+            match args[2].as_str() {
+                "C04" | "C05" | "C06" => jbkv::faults::check_cmd(&args[2], tier),
+                id => dispatch!(id, run_check, tier),
+            }
         }
         "worker" => {
             // worker <ID> <tier> <seed> <idx> <n> <outdir>
